@@ -98,6 +98,15 @@ func encodeReflect(t reflect.Type) fileMaker {
 		if err := fw.WriteHeader(w); err != nil {
 			return err
 		}
+		// every other file is mirrored: the same FileWriter writes its header (and later every block) to a second
+		// destination too; the file that is read back is the first one
+		mirror := cfg.Block%2 == 1
+		var side bytes.Buffer
+		if mirror {
+			if err := fw.WriteHeader(&side); err != nil {
+				return err
+			}
+		}
 		// all records are encoded into ONE buffer first; every block is then handed to WriteBlock as a sub-slice of
 		// it (its capacity reaches into the following blocks): what a caller that batches encodings does. WriteBlock
 		// has no business writing into the caller's memory.
@@ -121,6 +130,11 @@ func encodeReflect(t reflect.Type) fileMaker {
 		cut()
 		data := wb.Bytes()
 		for _, sp := range spans {
+			if mirror {
+				if err := fw.WriteBlock(&side, sp.count, data[sp.from:sp.to]); err != nil {
+					return err
+				}
+			}
 			if err := fw.WriteBlock(w, sp.count, data[sp.from:sp.to]); err != nil {
 				return err
 			}
